@@ -2,6 +2,7 @@ package c07
 
 import (
 	"encoding/binary"
+	"fmt"
 
 	"github.com/cnotch/ipchub/av/format/rtp"
 	"verif/harness/lib/rtppack"
@@ -220,4 +221,103 @@ func channelName(ch byte) string {
 		return "audio-control"
 	}
 	return "unknown-channel"
+}
+
+// ---------------------------------------------------------------- never-ending fragmentation units
+
+// neverEndingFU builds whole RTP packets: one start fragment and `middles`
+// middle fragments (neither S nor E set) of fragSize payload bytes each, with
+// consecutive sequence numbers and one timestamp; with end=true a final
+// fragment with the E bit closes the unit. RFC 6184 §5.8 (FU-A: indicator type
+// 28, header S|E|R|type) / RFC 7798 §4.4.3 (FU: payload header type 49, FU
+// header S|E|type). The fragmented unit is an IDR slice (key) or a non-key slice.
+func neverEndingFU(codec esgen.Codec, middles, fragSize int, seq uint16, ts uint32, key, end bool) [][]byte {
+	if fragSize < 1 {
+		fragSize = 1
+	}
+	data := make([]byte, fragSize)
+	for i := range data {
+		data[i] = 0x80 | byte(i*5+i>>7)&0x7f
+	}
+	var hdr func(s, e bool) []byte
+	if codec == esgen.H264 {
+		typ := byte(1)
+		if key {
+			typ = 5
+		}
+		hdr = func(s, e bool) []byte {
+			h := typ
+			if s {
+				h |= 0x80
+			}
+			if e {
+				h |= 0x40
+			}
+			return []byte{0x60 | 28, h}
+		}
+	} else {
+		typ := byte(1)
+		if key {
+			typ = 19
+		}
+		hdr = func(s, e bool) []byte {
+			h := typ
+			if s {
+				h |= 0x80
+			}
+			if e {
+				h |= 0x40
+			}
+			return []byte{49 << 1, 0x01, h}
+		}
+	}
+	var out [][]byte
+	add := func(s, e bool) {
+		pl := append(hdr(s, e), data...)
+		out = append(out, rtppack.Pkt{PT: 96, Marker: e, Seq: seq, TS: ts, SSRC: probeSSRC + 2, Payload: pl}.Marshal())
+		seq++
+	}
+	add(true, false)
+	for i := 0; i < middles; i++ {
+		add(false, false)
+	}
+	if end {
+		add(false, true)
+	}
+	return out
+}
+
+// ---------------------------------------------------------------- RTP padding
+
+// paddingVariants: RFC 3550 §5.1 — with the P bit set the last octet of the
+// packet says how many padding octets (itself included) are to be ignored. The
+// variants set the P bit on header+payload and put every interesting count into
+// the last octet (0, 1, len(payload)±1, len(payload), len(packet)-12,
+// len(packet), 255), and also build correctly padded packets (payload followed
+// by c-1 zero octets and the count c).
+func paddingVariants(pt byte, marker bool, seq uint16, ts uint32, payload []byte) []hostile {
+	base := mediaPacket(pt, marker, seq, ts, payload)
+	base[0] |= 0x20
+	var out []hostile
+	seen := map[int]bool{}
+	if len(payload) > 0 {
+		for _, c := range []int{0, 1, len(payload) - 1, len(payload), len(payload) + 1, len(base) - 12, len(base), 255} {
+			if c < 0 || seen[c&0xff] {
+				continue
+			}
+			seen[c&0xff] = true
+			b := append([]byte{}, base...)
+			b[len(b)-1] = byte(c)
+			out = append(out, hostile{fmt.Sprintf("p-bit-last-octet-%d-payload-%d", c&0xff, len(payload)), b})
+		}
+	} else {
+		out = append(out, hostile{"p-bit-no-payload", append([]byte{}, base...)})
+	}
+	for _, c := range []int{1, 2, 4, 255} {
+		b := append([]byte{}, base...)
+		b = append(b, make([]byte, c-1)...)
+		b = append(b, byte(c))
+		out = append(out, hostile{fmt.Sprintf("correctly-padded-%d-payload-%d", c, len(payload)), b})
+	}
+	return out
 }
